@@ -106,6 +106,24 @@ def gen_cases(tier, rng):
                         w = ['-c', vals[0]] + vals[1:]
                     cases.append('H:f=0 arg:c,cont:%s0:%s %s kind:container-overflow'
                                  % (kind, '/'.join(opts), A.argv_tok(w)))
+    # range-string destinations (bitset of 1024 positions in a heap block of its own, vector): positions at and
+    # beyond the size, ranges across the end, huge values, malformed ranges (sanitizers only)
+    for v in ('0', '1023', '1024', '1025', '1020-1030', '3,5000', '1087', '1088', '2048', '65536', '4294967296', '999999999999999999', '5-3', '1-', '-1', '1--2', '1,,2', '1-3[2]', '1-10{3,4}', '', 'a', '1000-1100[10]'):
+        cases.append('H:f=0 arg:r,range:rb0: %s kind:range-dest' % A.argv_tok(['-r', v]))
+        cases.append('H:f=0 arg:r,range:rb0: %s kind:range-dest' % A.argv_tok(['--range=' + v]))
+        cases.append('H:f=0 arg:r,range:rv0: %s kind:range-dest' % A.argv_tok(['-r', v]))
+    cases.append('H:f=16 prog:%s arg:r:rb0: file:%s argv:- kind:range-dest' % (A.hx('prb'), A.hx('-r 1024\n')))
+    cases.append('H:f=32 prog:%s arg:r:rb0: env:%s argv:- kind:range-dest' % (A.hx('prb'), A.hx('-r 1020-1030')))
+    # long value lists for destinations with formatters (general and per position): the table of formatters is
+    # addressed by the position of the value
+    long_ = ','.join('v%02d' % k for k in range(24))
+    longi = ','.join(str(k) for k in range(24))
+    for kind, lst in (('vs', long_), ('vi', longi), ('ai', longi), ('ri', longi), ('ti', '1,x,2,3,4,5,6,7,8,9,10,11,12'), ('si', longi), ('li', longi)):
+        for opts in (['fmt=upper'], ['fmtpos=0~upper'], ['fmtpos=2~lower'], ['fmt=lower', 'fmtpos=1~upper'], ['fmtpos=0~upper', 'fmtpos=3~upper']):
+            for form in (0, 1):
+                vals = lst.split(',')
+                w = ['-c', lst] if form == 0 else [x for v in vals for x in ('-c', v)]
+                cases.append('H:f=0 arg:c,cont:%s0:%s %s kind:long-list' % (kind, '/'.join(opts), A.argv_tok(w)))
     # sub-group arguments (outside the handler model, judged by the sanitizers): the main handler passes the words
     # behind the sub-group key to another handler and advances the argument iterator itself - the sub-group key as
     # the last word, followed by known / unknown / fuzzed words, inside a group of short flags, given twice
